@@ -2267,7 +2267,7 @@ def distributed_shampoo(
     exponents.extend([1 for _ in range(to_pad)])
     global_stats = GlobalShardedParameterStats(
         jnp.stack(padded_statistics), jnp.stack(padded_preconditioners),
-        jnp.stack(exponents))
+        jnp.asarray(exponents, dtype=jnp.int32))
     return ShampooState(
         count=jnp.zeros([], jnp.int32),
         stats=ShardedShampooStats(global_stats, local_stats))
